@@ -255,3 +255,101 @@ func harnessC20AsyncCancelled() {
 	mu.Unlock()
 	vCover("checked")
 }
+
+// c20SlowStore: a store whose first Append runs a hook (e.g. cancels somebody's context) and then lets the
+// other goroutines run while the bus still holds its store lock.
+type c20SlowStore struct {
+	inner  *MemoryStore
+	mu     sync.Mutex
+	calls  int
+	during func()
+	fail   bool
+}
+
+func (s *c20SlowStore) Append(ctx context.Context, e *Event) (Offset, error) {
+	s.mu.Lock()
+	s.calls++
+	first := s.calls == 1
+	s.mu.Unlock()
+	if first && s.during != nil {
+		s.during()
+	}
+	vYield()
+	if s.fail && !first {
+		return "", errInjected
+	}
+	return s.inner.Append(context.Background(), e)
+}
+func (s *c20SlowStore) Read(ctx context.Context, from Offset, limit int) ([]*StoredEvent, Offset, error) {
+	return s.inner.Read(ctx, from, limit)
+}
+func (s *c20SlowStore) SaveOffset(ctx context.Context, id string, o Offset) error {
+	return s.inner.SaveOffset(ctx, id, o)
+}
+func (s *c20SlowStore) LoadOffset(ctx context.Context, id string) (Offset, error) {
+	return s.inner.LoadOffset(ctx, id)
+}
+
+//verif:entry property=C20 tier=both bounds="two concurrent publishers on a persistent bus with observability (with or without a persistence timeout); the store lets the other goroutines run while an append is in flight, and the first append may cancel the other publisher's context meanwhile; the second append may fail; every interleaving within the preemption bound; persist start/complete pairs = append attempts, every publish and handler pair balanced" cover="checked" preempt_quick=2 preempt_thorough=3 race=on
+func harnessC20ConcurrentPersist() {
+	obs := &c20Obs{}
+	st := &c20SlowStore{inner: NewMemoryStore(), fail: vBool()}
+	opts := []Option{WithStore(st), WithObservability(obs)}
+	if vBool() {
+		opts = append(opts, WithPersistenceTimeout(time.Hour))
+	}
+	bus := New(opts...)
+	var mu sync.Mutex
+	runs := 0
+	Subscribe(bus, func(e evA) { mu.Lock(); runs++; mu.Unlock() })
+	ctx2, cancel2 := context.WithCancel(context.Background())
+	defer cancel2()
+	if vBool() {
+		st.during = cancel2
+	}
+	var wg sync.WaitGroup
+	wg.Add(2)
+	go func() {
+		defer wg.Done()
+		PublishContext(bus, context.Background(), evA{N: 1})
+	}()
+	go func() {
+		defer wg.Done()
+		PublishContext(bus, ctx2, evA{N: 2})
+	}()
+	wg.Wait()
+	vJoinAll()
+	obs.mu.Lock()
+	defer obs.mu.Unlock()
+	open := map[int]int{} // id handed out by a start -> its kind
+	counts := [7]int{}
+	pErrs := 0
+	for _, e := range obs.evs {
+		counts[e.kind]++
+		switch e.kind {
+		case 1, 3, 5:
+			open[e.id] = e.kind
+		case 2, 4, 6:
+			vAssert(open[e.id] == e.kind-1, "complete-gets-the-context-of-its-start")
+			delete(open, e.id)
+			if e.kind == 6 && e.err {
+				pErrs++
+			}
+		}
+	}
+	vAssert(len(open) == 0, "every-start-has-its-complete")
+	vAssert(counts[1] == 2 && counts[2] == 2, "one-publish-start-and-complete")
+	st.mu.Lock()
+	attempts := st.calls
+	st.mu.Unlock()
+	vAssert(counts[5] == attempts && counts[6] == attempts, "one-persist-pair-per-append-attempt")
+	wantErrs := 0
+	if st.fail && attempts == 2 {
+		wantErrs = 1
+	}
+	vAssert(pErrs == wantErrs, "persist-complete-carries-error-iff-failed")
+	mu.Lock()
+	vAssert(counts[3] == runs && counts[4] == runs, "one-handler-start-and-complete-per-invocation")
+	mu.Unlock()
+	vCover("checked")
+}
